@@ -1,11 +1,157 @@
-//! C11 — not built yet.
+//! C11 — a failing sink surfaces as Err(Io) from the builder call in progress.
+//! Case format and machinery: see c07.rs. For every key list the number W of write calls (checksum
+//! write included) is measured against the recording sink; then the fault is injected at every
+//! index 0..W-1 (index 0 and 1 fail inside the constructor), and into the final flush.
+use crate::c07::*;
 use crate::common::*;
+use std::io::ErrorKind;
+
 pub struct P;
-impl Prop for P {
-    fn generate(&self, _tier: Tier, _rng: &mut Rng, _stats: &mut Stats) -> Vec<String> {
-        vec![]
+
+fn fault_kinds(rng: &mut Rng) -> [Resp; 4] {
+    let third = match rng.below(6) {
+        0 => ErrorKind::ConnectionReset,
+        1 => ErrorKind::TimedOut,
+        2 => ErrorKind::WriteZero,
+        3 => ErrorKind::UnexpectedEof,
+        _ => ErrorKind::PermissionDenied,
+    };
+    [Resp::Fail(ErrorKind::Other), Resp::Fail(ErrorKind::BrokenPipe), Resp::Fail(third), Resp::Zero]
+}
+
+/// the first fault of a script and the error kind the caller must see for it
+fn expected_kind(c: &Case) -> Option<ErrorKind> {
+    for r in &c.script {
+        match r {
+            Resp::Zero => return Some(ErrorKind::WriteZero),
+            Resp::Fail(k) if *k != ErrorKind::Interrupted => return Some(*k),
+            _ => {}
+        }
     }
-    fn execute(&self, _case: &str) -> String {
-        String::new()
+    match c.flush {
+        FlushResp::Fail(k) => Some(k),
+        FlushResp::Ok => None,
+    }
+}
+
+impl Prop for P {
+    fn generate(&self, tier: Tier, rng: &mut Rng, stats: &mut Stats) -> Vec<String> {
+        let nlists = match tier {
+            Tier::Quick => 260,
+            Tier::Thorough => 1500,
+            Tier::Wide => 800,
+        };
+        let mut lists: Vec<Vec<Kv>> = small_key_lists(rng);
+        while lists.len() < nlists {
+            lists.push(random_key_list(rng));
+        }
+        let mut cases = vec![];
+        for (i, mut kvs) in lists.into_iter().enumerate() {
+            let kind = BUILDER_KINDS[i % BUILDER_KINDS.len()];
+            maybe_repeat(kind, &mut kvs, rng);
+            let r = reference(kind, &kvs);
+            let calls = calls_string(&r.calls);
+            stats.bump("key_lists");
+            stats.add("write_calls_W_total", r.w as u64);
+            // a benign prefix of k responses: all-accepting, or rough (short writes, Interrupted);
+            // a rough prefix only increases the number of write calls, so response k is still consumed
+            let prefix = |rng: &mut Rng, k: usize| -> Vec<Resp> {
+                if rng.chance(1, 4) {
+                    random_script(rng, k, 40, 20)
+                } else {
+                    vec![Resp::Accept(ALL); k]
+                }
+            };
+            for k in 0..r.w {
+                for f in fault_kinds(rng) {
+                    let mut s = prefix(rng, k);
+                    s.push(f);
+                    // what follows the fault must not matter
+                    if rng.chance(1, 8) {
+                        s.push(Resp::Zero);
+                    }
+                    let prefill: Vec<u8> = if rng.chance(1, 10) { vec![0xAB; rng.range(1, 20)] } else { vec![] };
+                    stats.bump(match f {
+                        Resp::Zero => "fault_zero_length_write",
+                        _ => "fault_error_return",
+                    });
+                    cases.push(case_line(kind, &kvs, &prefill, None, &s, FlushResp::Ok, &calls));
+                }
+            }
+            // the final flush as the failing call
+            for fk in [ErrorKind::Other, ErrorKind::BrokenPipe, ErrorKind::PermissionDenied, ErrorKind::Interrupted] {
+                let s = if rng.chance(1, 3) { random_script(rng, r.w, 40, 20) } else { vec![] };
+                stats.bump("fault_flush");
+                cases.push(case_line(kind, &kvs, &[], None, &s, FlushResp::Fail(fk), &calls));
+            }
+            // a fault scripted beyond the last write call is never consumed: the build finishes
+            let mut s = vec![Resp::Accept(ALL); r.w];
+            s.push(Resp::Fail(ErrorKind::Other));
+            stats.bump("fault_never_reached");
+            cases.push(case_line(kind, &kvs, &[], None, &s, FlushResp::Ok, &calls));
+            // a fault behind a BufWriter: surfaces in whichever call flushes the buffer
+            if i % 4 == 0 {
+                for _ in 0..4 {
+                    let k = rng.range(0, r.w);
+                    let mut s = prefix(rng, k);
+                    s.push(fault_kinds(rng)[rng.below(4) as usize]);
+                    stats.bump("fault_behind_bufwriter");
+                    cases.push(case_line(kind, &kvs, &[], Some(rng.range(0, 40)), &s, FlushResp::Ok, &calls));
+                }
+            }
+        }
+        cases
+    }
+
+    fn nontrivial(&self, case: &str) -> bool {
+        let f: Vec<&str> = case.split('\t').collect();
+        f.len() == 7 && (f[4].contains('f') || f[4].contains('z') || f[5] != "ok")
+    }
+
+    fn execute(&self, case: &str) -> String {
+        let c = Case::parse(case);
+        let r = reference(&c.kind, &c.kvs);
+        let mut x = String::from("ok");
+        if calls_string(&r.calls) != c.calls {
+            x = "chunk lists in the case line are not those of the in-memory build".to_string();
+        }
+        let s = run_scripted(&c);
+        let npre = c.prefill.len();
+        let total = r.bytes.len() - 4;
+        let mut statuses: Vec<&Status> = s.log.calls.iter().map(|c| &c.status).collect();
+        if let Some(f) = &s.log.fin {
+            statuses.push(f);
+        }
+        let first_err = statuses.iter().position(|st| **st != Status::Ok);
+        let complete = s.data.len() == npre + r.bytes.len() && s.data[..npre] == c.prefill[..] && s.data[npre..] == r.bytes[..] && s.flushes >= 1;
+        let spec = match first_err {
+            Some(i) => match statuses[i] {
+                Status::Io(k) => {
+                    if i != statuses.len() - 1 {
+                        "continued-after-error".to_string()
+                    } else if Some(*k) != expected_kind(&c) {
+                        format!("err-io-wrong-kind({})", kind_name(*k))
+                    } else {
+                        "err-io".to_string()
+                    }
+                }
+                other => other.show(),
+            },
+            None => {
+                if complete {
+                    "finished".to_string()
+                } else {
+                    "finished-incomplete".to_string()
+                }
+            }
+        };
+        let f = match first_err {
+            Some(i) => match statuses[i] {
+                Status::Io(k) => format!("fail={}:{}", i, kind_name(*k)),
+                other => format!("fail={}:{}", i, other.show()),
+            },
+            None => "fail=none".to_string(),
+        };
+        format!("S:{}\tM:{}|{}\tX:{}", spec, f, m_common(&s, npre, total), x)
     }
 }
